@@ -1,4 +1,5 @@
 import collections
+import itertools
 import typing as tp
 
 from cirbo.core.circuit import (
@@ -156,20 +157,23 @@ def _process_nor(cnf: CnfRaw, top_lit: Lit, lits: list[Lit]):
     cnf.append(common)
 
 
+def _process_parity(cnf: CnfRaw, top_lit: Lit, lits: list[Lit]):
+    """Encodes `top_lit <-> lits[0] xor lits[1] xor ... xor lits[-1]`."""
+    for signs in itertools.product((-1, 1), repeat=len(lits)):
+        # this clause is about the assignment that falsifies every `sign * lit`,
+        # i.e. where a literal is true iff its sign is -1.
+        operands_xor = signs.count(-1) % 2 == 1
+        clause = [sign * lit for sign, lit in zip(signs, lits)]
+        clause.append(top_lit if operands_xor else -top_lit)
+        cnf.append(clause)
+
+
 def _process_xor(cnf: CnfRaw, top_lit: Lit, lits: list[Lit]):
-    a, b, c = lits[0], lits[1], top_lit
-    cnf.append([-a, -b, -c])
-    cnf.append([-a, b, c])
-    cnf.append([a, -b, c])
-    cnf.append([a, b, -c])
+    _process_parity(cnf, top_lit, lits)
 
 
 def _process_nxor(cnf: CnfRaw, top_lit: Lit, lits: list[Lit]):
-    a, b, c = lits[0], lits[1], top_lit
-    cnf.append([-a, -b, c])
-    cnf.append([-a, b, -c])
-    cnf.append([a, -b, -c])
-    cnf.append([a, b, c])
+    _process_parity(cnf, -top_lit, lits)
 
 
 def _process_gt(cnf: CnfRaw, top_lit: Lit, lits: list[Lit]):
